@@ -46,7 +46,8 @@ def toStr (sp : Char → Bool) : Expr → Nat → Option (List Char)
         | 1, none => ['+']
         | lo, hi =>
           '{' :: natDigits lo ++
-            (if hi == some lo then [] else ',' :: (match hi with | some h => natDigits h | none => []))
+            (if hi == some lo || (hi.isNone && lo == UNSET) then []
+             else ',' :: (match hi with | some h => natDigits h | none => []))
             ++ ['}']
       let body := s ++ q ++ (if greedy then [] else ['?'])
       if prec > 2 then "(?:".toList ++ body ++ [')'] else body
